@@ -486,6 +486,29 @@ def run(ctx):
         for o in owners:
             ctx.saw(o[0])
         tus.append((src, owners))
+    # arrays of unknown bound completed by a string literal keep their own element type (signedness, width)
+    ub_src = [PRELUDE]
+    ub_body = []
+    ub_owners = []
+    k2 = 0
+    for (et, lit) in [('unsigned char', '"\\xff\\x80z"'), ('signed char', '"\\xff\\x80z"'), ('char', '"\\xff\\x80z"'), ('unsigned char', '{"\\xfe"}'), ('unsigned short', 'u"\\xffff\\x8000"'),
+                      ('unsigned int', 'U"\\xffffffff"'), ('int', 'L"\\xffffffff"'), ('unsigned char', 'u8"\\xc3\\xa9"'), ('const unsigned char', '"\\377"'), ('volatile signed char', '"\\200"')]:
+        for form in ('static %s ub%d[] = %s;', 'AUTO %s ub%d[] = %s;', 'static struct { int n; %s fam[]; } ub%d = {1, %s};'):
+            if 'fam' in form and lit.startswith('{'):
+                continue
+            d = form % (et, k2, lit)
+            acc = 'ub%d.fam' % k2 if 'fam' in form else 'ub%d' % k2
+            if d.startswith('AUTO'):
+                ub_body.append('{ %s OUTV(%d, %s[0]); OUTV(%d, %s[0] > 0); OUTV(%d, sizeof %s); OUTV(%d, sizeof %s[0]); OUTV(%d, (typeof(%s[0]))-1 < 0); }' % (d[5:], k2, acc, k2, acc, k2, acc, k2, acc, k2, acc))
+            else:
+                ub_src.append(d)
+                ub_body.append('OUTV(%d, %s[0]); OUTV(%d, %s[0] > 0); OUTV(%d, %s); OUTV(%d, sizeof %s[0]); OUTV(%d, (typeof(%s[0]))-1 < 0);' % (k2, acc, k2, acc, k2, '0' if 'fam' in form else 'sizeof ub%d' % k2, k2, acc, k2, acc))
+            for what in ('value', 'positive', 'sizeof-object', 'sizeof-element', 'signedness'):
+                ub_owners.append(('C05|unknown-bound-from-string|%s|%s' % (et.replace(' ', '-'), what), d, ''))
+            k2 += 1
+    tus.append(('\n'.join(ub_src) + '\nint main(void) {\n' + '\n'.join(ub_body) + '\nreturn 0; }\n', ub_owners))
+    for o in ub_owners:
+        ctx.saw(o[0])
     probe = PRELUDE + '''
 struct P { int a, b, c; };
 static int sx[2][3] = {1, 2, 3, 4, 5, 6, [0] = {7, 8}, 9, 10};
